@@ -322,16 +322,11 @@ class Neo4jPropertyGraph(ABCPropertyGraph):
         assert kind is not None
         assert props is not None
 
-        all_props = ""
-        for k, v in props.items():
-            all_props += f'{k}: "{v}", '
-        if len(all_props) > 2:
-            all_props = all_props[:-2]
-
-        query = "MATCH (a:GraphNode {{GraphID: $graphId, NodeID: $nodeA}}) -[r:{kind}]- " \
-            f"(b:GraphNode {{GraphID: $graphId, NodeID:$nodeB}}) SET r+= {{ {all_props} }} RETURN properties(s)"
+        query = f"MATCH (a:GraphNode {{GraphID: $graphId, NodeID: $nodeA}}) -[r:{kind}]- " \
+            f"(b:GraphNode {{GraphID: $graphId, NodeID:$nodeB}}) SET r+= $props RETURN properties(r)"
         with self.driver.session() as session:
-            val = session.run(query, graphId=self.graph_id, nodeA=node_a, nodeB=node_b)
+            val = session.run(query, graphId=self.graph_id, nodeA=node_a, nodeB=node_b,
+                              props={k: str(v) for k, v in props.items()})
             if val is None or len(val.value()) == 0:
                 raise PropertyGraphQueryException(graph_id=self.graph_id, node_id=node_a,
                                                   node_b=node_b, kind=kind,
